@@ -453,8 +453,23 @@ func c06R5(c *Ctx) {
 				"rejectInPlace(verdict | acceptFormatError)", "rejectInPlace is passed "+e.String())
 		}
 	}
-	if nCallers < 3 {
-		c.unresolved(R, "acceptHeader callers", fmt.Sprintf("expected 3 engine entry points, found %d", nCallers))
+	if nCallers < 1 { // anti-vacuity only: today three entry points; they may share one screening helper
+		c.unresolved(R, "acceptHeader callers", fmt.Sprintf("expected at least one engine entry point, found %d", nCallers))
+	}
+	// a screening helper's verdict is honoured by its callers: behind its false result nothing is served
+	for _, s := range c.CallSites(aho) {
+		fn := TopLevel(s.Fn)
+		fo := funcObjOf(fn)
+		if s.Kind != "call" || fo == nil || fo.Exported() || len(instrsWhere(fn, isCallNamed("ServeRaw", "ServeRawInline", "ServeRawReplay"))) > 0 {
+			continue
+		}
+		for _, cs := range c.CallSites(fo) {
+			if cs.Kind != "call" {
+				c.violation(R, "C06-R5|"+fnKey(fn)+"|screening helper used as a value", instrPos(cs.Instr), "the header screen is taken as a function value: its verdict cannot be followed")
+				continue
+			}
+			c.AfterEdge(R, TopLevel(cs.Fn), "a packet the header screen "+fn.Name()+" turned away is served", OnFalse(fn.Name()+"()", CallTo(fo)), isCallNamed("ServeRaw", "ServeRawInline", "ServeRawReplay"))
+		}
 	}
 	// rejectInPlace shapes
 	rx := map[string]*types.Var{"server.(*udpJob).rejectInPlace": c.field(R, "server.udpJob.rx"), "server.(*tcpJob).rejectInPlace": c.field(R, "server.tcpJob.rx")}
